@@ -845,6 +845,11 @@ def load_corpus(pid):
 def _cleanup_rundir(pid):
     import shutil
     shutil.rmtree(os.path.join(WORK, "%s-%d" % (pid, os.getpid())), ignore_errors=True)
+    try:
+        from . import util
+        util.sweep_tmp()
+    except Exception:      # noqa: cleaning up is best effort
+        pass
 
 
 def main(mod):
